@@ -39,7 +39,8 @@ KERNELS = {
     "C36": ["k_comment_dispatch"],
     "C21": ["k_error_and_drop"],
     "C26": ["k_str_slice", "k_str_insert", "k_str_index_length"],
-    "C28": ["k_index_of", "k_set_nth", "k_append_join", "k_list_separator"],
+    "C29": ["k_math_bounding", "k_math_percentage", "k_math_clamp", "k_find_extreme"],
+    "C28": ["k_index_of", "k_set_nth", "k_append_join", "k_list_separator", "k_list_index"],
     "C31": ["k_deg_mod"],
     "C32": ["k_deg_mod", "k_lighten_darken", "k_fade", "k_complement_grayscale"],
 }
@@ -193,6 +194,72 @@ def lift_deg_mod(model):
     return {"scss": src, "want": "%rdeg (in [0,360))" % want, "got": vals, "reproduced": bad}
 
 
+def lift_index_map(model):
+    """list.index on a map must agree with list.index on the explicit list of its (key value) pairs (same build)."""
+    sep = {0: " ", 1: ", ", 2: "/"}  # ListSeparator discriminants are checked by the kernel; only the text matters here
+    vsd, bra, ln = _val(model, "Some.0.disc"), None, _val(model, "len", False)
+    for k, v in (model or {}).items():
+        if "List.2" in k:
+            bra = (v == "true")
+    if ln is None or not (0 <= ln <= 4):
+        ln = 2
+    cands = []
+    for items in (["b", "2"], ["b", "9"], ["x", "2"], ["a", "1"]):
+        items = (items + ["z"] * 4)[:ln]
+        for sp in ([vsd] if vsd in sep else []) + [0, 1]:
+            body = ("list.slash(%s)" % ", ".join(items)) if sp == 2 and len(items) >= 2 else sep[sp if sp != 2 else 0].join(items)
+            if len(items) == 1 and sp == 1:
+                body += ","
+            for b in ([bra] if bra is not None else []) + [False, True]:
+                txt = ("[%s]" % body) if b else ("(%s)" % body)
+                if sp == 2 and len(items) >= 2:
+                    txt = "join(%s, (), $bracketed: %s)" % (body, "true" if b else "false")
+                if txt not in cands:
+                    cands.append(txt)
+    diffs = []
+    for v in cands[:12]:
+        a, _ = _css_value("inspect(list.index((a: 1, b: 2), %s))" % v)
+        b, _ = _css_value("inspect(list.index(((a 1), (b 2)), %s))" % v)
+        if a != b:
+            diffs.append({"scss": "list.index((a: 1, b: 2), %s)" % v, "want": b, "got": a})
+    return {"candidates": len(cands[:12]), "disagreements": diffs, "reproduced": bool(diffs),
+            "scss": diffs[0]["scss"] if diffs else None, "want": diffs[0]["want"] if diffs else None, "got": diffs[0]["got"] if diffs else None}
+
+
+def lift_math1(model, fn):
+    """math.ceil/floor/round/abs/percentage of one finite, moderately sized magnitude against Python's exact arithmetic."""
+    from fractions import Fraction
+    x = _fval(model, "x#") if fn == "percentage" else None
+    if x is None:
+        for k, v in (model or {}).items():
+            if "arg.number" in k or "x#" in k:
+                x = smt.f64_from_model(v)
+    if x is None or not math.isfinite(x) or abs(x) > 1e9 or (x != 0 and abs(x) < 1e-6):
+        return None
+    fx = Fraction(x)
+    if fn == "ceil":
+        want = math.ceil(fx)
+    elif fn == "floor":
+        want = math.floor(fx)
+    elif fn == "round":
+        want = math.floor(fx + Fraction(1, 2)) if fx >= 0 else -math.floor(-fx + Fraction(1, 2))
+    elif fn == "abs":
+        want = abs(fx)
+    elif fn == "percentage":
+        want = fx * 100
+    else:
+        return None
+    unit = "" if fn == "percentage" else "px"
+    src = "math.%s(%s%s)" % (fn, repr(x), unit)
+    vals, outs = _css_value(src)
+    bad = False
+    for t in vals:
+        m = re.match(r"(-?[0-9.]+(?:e[-+]?[0-9]+)?)(%s)$" % ("%" if fn == "percentage" else "px"), t)
+        if not m or abs(Fraction(m.group(1)) - want) > max(abs(want), 1) * Fraction(1, 10**8):
+            bad = True
+    return {"scss": src, "want": "%s%s" % (float(want), "%" if fn == "percentage" else "px"), "got": vals, "reproduced": bad}
+
+
 def lift_random(model):
     lim = _val(model, "limit")
     if lim is None or lim <= 0:
@@ -290,6 +357,30 @@ STRUCTURAL_PROBES = {
     "k_binop_short_circuit": [("false and $undefined-variable", "false"), ("true or $undefined-variable", "true")],
     "k_is_true": [("if((), 1, 2)", "1"), ("if(unquote(\"\"), 1, 2)", "1"), ("if(0, 1, 2)", "1"), ("if(null, 1, 2)", "2")],
     "k_set_nth": [("set-nth(a b c, -3, x)", "x b c"), ("set-nth(a b c, 3, x)", "a b x"), ("set-nth((a, b), 1, x)", "x, b"), ("nth(a b c, -3)", "a")],
+    # probes over several files: ({name: text}, entry, expected substring of the output or "<error>")
+    "k_lock_loading": [
+        (({"a.scss": '@import "b";\nx { y: a }\n', "_b.scss": '@import "a";\nx { y: b }\n'}, "a.scss"), "<error>"),
+        (({"a.scss": '@import "b";\n@import "b";\nx { y: a }\n', "_b.scss": 'x { y: b }\n'}, "a.scss"), "x { y: b; } x { y: b; } x { y: a; }"),
+        (({"a.scss": '@use "b";\nx { y: a }\n', "_b.scss": '@use "a";\nx { y: b }\n'}, "a.scss"), "<error>"),
+        (({"a.scss": '@import "b";\n@import "c";\n', "_b.scss": '@import "c";\nx { y: b }\n', "_c.scss": 'x { y: c }\n'}, "a.scss"), "x { y: c; } x { y: b; } x { y: c; }"),
+    ],
+    "k_load_module": [
+        (({"a.scss": '@use "b";\n@use "c";\nx { y: a }\n', "_b.scss": '@use "c";\nx { y: b }\n', "_c.scss": 'x { y: c }\n'}, "a.scss"), "x { y: c; } x { y: b; } x { y: a; }"),
+        (({"a.scss": '@use "b";\nx { y: b.$v }\n', "_b.scss": '$v: 1;\nx { y: b }\n'}, "a.scss"), "x { y: b; } x { y: 1; }"),
+        (({"a.scss": '@use "b";\nx { y: a }\n', "_b.scss": '@error "boom";\n'}, "a.scss"), "<error>"),
+    ],
+    "k_math_bounding": [("math.ceil(1.2px)", "2px"), ("math.floor(-1.2em)", "-2em"), ("math.round(2.5)", "3"), ("math.round(-2.5)", "-3"), ("math.abs(-3%)", "3%"),
+                        ("math.floor(1.8s)", "1s"), ("math.ceil(-1.8)", "-1"), ("math.round(0.49999)", "0"), ("round(3.5px)", "4px"), ("abs(-2in)", "2in")],
+    "k_math_percentage": [("math.percentage(0.25)", "25%"), ("percentage(1.5)", "150%"), ("math.percentage(-0.07)", "-7%")],
+    "k_math_clamp": [("math.clamp(1px, 5px, 3px)", "3px"), ("math.clamp(1px, 0px, 3px)", "1px"), ("math.clamp(1px, 2px, 3px)", "2px"),
+                     ("math.clamp(5px, 2px, 3px)", "5px"), ("math.clamp(1in, 1px, 2in)", "1in"), ("math.clamp(0, 0.5, 1)", "0.5")],
+    "k_find_extreme": [("math.max(1, 3, 2)", "3"), ("math.min(1, 3, 2, 0.5)", "0.5"), ("math.max(1px, 1in)", "1in"), ("math.min(1px, 1in)", "1px"),
+                       ("math.max(3, 1, 2)", "3"), ("math.min(2, 3, 1)", "1"), ("max(1px, 1em)", "max(1px, 1em)"), ("math.max(2, 2.5, 2.25)", "2.5"),
+                       ("math.min(1s, 500ms)", "500ms")],
+    "k_list_index": [("inspect(index(a b c, c))", "3"), ("inspect(index(a b a, a))", "1"), ("inspect(index((a: 1, b: 2), b 2))", "2"),
+                     ("inspect(index((a: 1, b: 2), b 9))", "null"), ("inspect(index((a: 1, b: 2), x 2))", "null"), ("inspect(index((a: 1, b: 2), (b, 2)))", "null"),
+                     ("inspect(index(a, a))", "1"), ("inspect(index(a, b))", "null"), ("inspect(index((a: 1, b: 2), [b 2]))", "null"),
+                     ("inspect(index((a b) (c d), c d))", "2")],
     "k_fade": [("alpha(opacify(rgba(red, .5), .25))", "0.75"), ("alpha(transparentize(rgba(red, .5), .25))", "0.25"),
                ("alpha(fade-in(rgba(red, .5), .75))", "1")],
     "k_lighten_darken": [("lightness(darken(#333, 50%))", "0%"), ("lightness(lighten(#ccc, 50%))", "100%"),
@@ -310,6 +401,13 @@ def structural_probe(kernel, label=""):
         return None
     diffs = []
     for src, want in probes:
+        if isinstance(src, tuple):  # several files on disk
+            files, entry = src
+            outs = [native.run_files(files, entry, prof) for prof in ("dev", "release")]
+            vals = [(" ".join(r["message"].split()) if r["outcome"] == "ok" else "<%s>" % r["outcome"]) for r in outs]
+            if any(want not in v for v in vals):
+                diffs.append({"files": files, "entry": entry, "want": want, "got": vals})
+            continue
         if "{" in src:  # a whole stylesheet: the expected text must occur in the output
             comp = src.startswith("[compressed]")
             doc = src[len("[compressed]"):] if comp else src
@@ -342,6 +440,10 @@ def lift(ob):
             return lift_not(model, ob.get("variants", []))
         if kind == "deg_mod":
             return lift_deg_mod(model)
+        if kind and kind.startswith("math1:"):
+            return lift_math1(model, kind.split(":", 1)[1])
+        if kind == "index-map":
+            return lift_index_map(model)
     except Exception as e:  # a broken lifter must not turn into a verdict
         return {"error": repr(e), "reproduced": None}
     return None
@@ -416,26 +518,39 @@ def run(pid, tier, known, log, write_replay_file):
             if ob["verdict"] == "inconclusive":
                 inconclusive.append("E2 %s: %s: no verdict %s" % (kn, ob["obligation"], ob.get("solvers")))
                 continue
-            # violated
+            # violated: a solver model (or a structural mismatch) is only reported when it is confirmed natively,
+            # through the lifter of this obligation or the public-API probes of this kernel
+            has_native = bool(ob.get("lift")) or kn in STRUCTURAL_PROBES
             lf = lift(ob)
-            if lf is None:
-                lf = structural_probe(kn, ob["obligation"])
+            if lf is None or lf.get("reproduced") is None:
+                pr = structural_probe(kn, ob["obligation"])
+                if pr is not None:
+                    if lf is not None:
+                        pr["lifter"] = lf
+                    lf = pr
             ob["lifted"] = lf
             kmatch = None
             for kid, k in known_ids.items():
                 if k.get("kernel") == kn and any(l in ob["obligation"] for l in k.get("labels", [])):
                     kmatch = k
-            if lf is not None and "probes" in lf and not lf.get("disagreements") and "structural" in (ob.get("solvers") or {}):
-                inconclusive.append(
-                    "E2 %s: structural obligation '%s' fails but all %d public-API probes of this kernel give the expected output: "
-                    "the code shape is probably not recognised" % (kn, ob["obligation"], lf["probes"]))
+            if kmatch is not None and ob.get("region_excluded") == "holds":
+                # the recorded finding (natively established by its recorded witness); outside its region the obligation holds
+                known_hits.append((kmatch, kn, ob["obligation"]))
+                ob["known_finding"] = kmatch["id"]
                 continue
-            if lf is not None and lf.get("reproduced") is False:
-                inconclusive.append(
-                    "E2 %s: solver model for '%s' does not reproduce through the public API (%s): encoding error"
-                    % (kn, ob["obligation"], json.dumps(lf)[:300])
-                )
-                continue
+            if has_native:
+                confirmed = lf is not None and (lf.get("reproduced") is True or bool(lf.get("disagreements")))
+                if lf is not None and lf.get("reproduced") is False:
+                    inconclusive.append(
+                        "E2 %s: solver model for '%s' does not reproduce through the public API (%s): encoding error"
+                        % (kn, ob["obligation"], json.dumps(lf)[:300]))
+                    continue
+                if not confirmed:
+                    inconclusive.append(
+                        "E2 %s: '%s' is not satisfied by the code as encoded (model %s), but nothing reproduces through the public API "
+                        "(%s probes of this kernel give the expected output): the code shape is probably not recognised; no verdict"
+                        % (kn, ob["obligation"], json.dumps(ob.get("model"))[:160], (lf or {}).get("probes", 0)))
+                    continue
             if kmatch is not None:
                 region = ob.get("region_excluded")
                 if region == "holds":
